@@ -431,6 +431,11 @@ class Simplifier(pysmt.walkers.DagWalker):
         return self.manager.Times(new_args)
 
     def walk_pow(self, formula: FNode, args: List[FNode], **kwargs) -> FNode:
+        if args[0].is_constant() and args[0].is_zero() and \
+           args[1].constant_value() < 0:
+            # A division by zero: left as it is
+            return self.manager.Pow(args[0], args[1])
+
         if args[0].is_real_constant():
             l: Union[int, Fraction] = cast(Fraction, args[0].constant_value())
             r: Union[int, Fraction] = cast(Union[int, Fraction], args[1].constant_value())
